@@ -197,7 +197,7 @@ def cells():
                                ((2, 2), 2, 3, 'thorough'), ((2, 2), 1, 3, 'quick')]:
         for which in ('damped', 'third'):
             out.append(Cell('spectral[%s,%dx%d,rank=%d,k=%d]' % (which, m, n, r, k), 'c03:recurrence',
-                            dict(m=m, n=n, k=k, which=which, kind='real', diag=r), tier=('thorough' if (which == 'damped' and r >= 2) else tier), twin=(r == 1 and k == 3 and (m, n) == (1, 1)), twin_timeout_s=300,
+                            dict(m=m, n=n, k=k, which=which, kind='real', diag=r), tier=('thorough' if (which == 'damped' and r >= 2) else tier), twin=(which == 'damped' and r == 1 and k == 3 and (m, n) == (1, 1)), twin_timeout_s=300,
                             bounds='A = diag(s_1..s_%d) padded to %dx%d, s_i in (0,100], gamma in (0,1]; %d iterations' % (r, m, n, k), **big))
     out.append(Cell('spectral[damped,2x2,rank=2,k=1]', 'c03:recurrence', dict(m=2, n=2, k=1, which='damped', kind='real', diag=2), tier='quick', twin=False,
                     bounds='A = diag(s_1, s_2), one damped iteration', **big))
